@@ -26,6 +26,14 @@ func TestVerifC04Playback(t *testing.T) {
 	if pb := os.Getenv("VERIF_PORTBASE"); pb != "" {
 		fmt.Sscan(pb, &port)
 	}
+	basePort := port
+	for ti, trusted := range []bool{false, true} {
+		// the same server twice: without trusted proxies, and with 127.0.0.1 as its only trusted proxy
+		port := basePort + ti
+		var tp conf.IPNetworks
+		if trusted {
+			json.Unmarshal([]byte(`["127.0.0.1/32"]`), &tp) //nolint:errcheck
+		}
 	dir := t.TempDir()
 	cf := filepath.Join(dir, "c.yml")
 	os.WriteFile(cf, []byte(fmt.Sprintf("playback: yes\npathDefaults:\n  recordPath: %s\npaths:\n  camA:\n  camB:\n  \"~^live/(.+)$\":\n", filepath.Join(dir, "rec/%path/%Y-%m-%d_%H-%M-%S-%f"))), 0o644) //nolint:errcheck
@@ -34,11 +42,10 @@ func TestVerifC04Playback(t *testing.T) {
 		t.Fatal(err)
 	}
 	am := &auth.Manager{Method: conf.AuthMethodInternal}
-	s := &Server{Address: fmt.Sprintf("127.0.0.1:%d", port), ReadTimeout: conf.Duration(10 * time.Second), WriteTimeout: conf.Duration(10 * time.Second), PathConfs: c.Paths, AuthManager: am, Parent: c04Log{}}
+	s := &Server{Address: fmt.Sprintf("127.0.0.1:%d", port), TrustedProxies: tp, ReadTimeout: conf.Duration(10 * time.Second), WriteTimeout: conf.Duration(10 * time.Second), PathConfs: c.Paths, AuthManager: am, Parent: c04Log{}}
 	if err = s.Initialize(); err != nil {
 		t.Fatal(err)
 	}
-	defer s.Close()
 	base := fmt.Sprintf("http://127.0.0.1:%d", port)
 	var routes []vmon.AdminRoute
 	for _, p := range []string{"camA", "camB", "live/x"} {
@@ -47,7 +54,7 @@ func TestVerifC04Playback(t *testing.T) {
 			vmon.AdminRoute{Method: "GET", URL: base + "/get?path=" + p + "&start=2024-01-01T00:00:00Z&duration=10", Action: "playback", Path: p},
 			vmon.AdminRoute{Method: "GET", URL: base + "/list?path=" + p + "&start=2024-01-01T00:00:00Z", Action: "playback", Path: p})
 	}
-	vmon.AdminAuthMonitor(r, vmon.AdminCfg{Name: "playback", Routes: routes, Batches: r.N(6, 800),
+	vmon.AdminAuthMonitor(r, vmon.AdminCfg{TrustedProxy: trusted, Name: "playback", Routes: routes, Batches: r.N(4, 400),
 		SetUsers: func(uj string) error {
 			var users []conf.AuthInternalUser
 			if err2 := json.Unmarshal([]byte(uj), &users); err2 != nil {
@@ -57,5 +64,7 @@ func TestVerifC04Playback(t *testing.T) {
 			return nil
 		},
 		State: func() string { return "" }})
+		s.Close()
+	}
 	r.Finish(vmon.AdminRule, "playback part: the permission is checked for the path named in the request (camA, camB, a regex path)")
 }
